@@ -1,6 +1,7 @@
 import BppModel.Proto
 import BppModel.Matrix
 import BppModel.Lap
+import BppModel.LapFull
 /-
 Driver for C04 (Matrix.h, MatrixTools.h).
 
@@ -249,10 +250,33 @@ def firstExtremum (lt : Rat → Rat → Bool) (a : Spec.Fn Rat) (r c i j : Nat) 
     if p < i || (p == i && q < j) then lt (a p q) (a i j)      -- earlier entries are strictly worse
     else !(lt (a i j) (a p q))                                  -- no entry is strictly better
 
+/-- iterations granted to each of the three open loops of `Lap.lapFull`: the bound of
+`lap_full_fuel_suffices` (`Props/C04Lap.lean`) -/
+def lapFuel (n : Nat) : Nat := n * n + n + 1
+
+/-- what the harness prints for `lap` -/
+def showLap (n : Nat) (a : Lap.Full Float) : String :=
+  let ix := List.range n
+  "cost " ++ showF a.cost ++ " ; rowsol " ++ " ".intercalate (ix.map fun i => toString (a.rowSol i))
+    ++ " ; colsol " ++ " ".intercalate (ix.map fun j => toString (a.colSol j))
+    ++ " ; u " ++ " ".intercalate (ix.map fun i => showF (a.u i))
+    ++ " ; v " ++ " ".intercalate (ix.map fun j => showF (a.v j))
+
+/-- the exact-arithmetic (`Rat`) instantiation of the transcription gives the same answer as its
+`Float` instantiation (integer costs: every double operation of the routine is exact) -/
+def lapRatAgrees (n : Nat) (c : Nat → Nat → Rat) (a : Lap.Full Float) : Bool :=
+  match Lap.lapFull (α := Rat) (lapFuel n) n c (fun _ => -7) (fun _ => -7) (fun _ => 99) (fun _ => 99) with
+  | .ok b => (Lap.allLt n fun i =>
+      decide (a.rowSol i = b.rowSol i) && decide (a.colSol i = b.colSol i) && decide (toRat (a.u i) = b.u i)
+        && decide (toRat (a.v i) = b.v i) && finite (a.u i) && finite (a.v i))
+      && decide (toRat a.cost = b.cost) && finite a.cost
+  | .error _ => false
+
 /-- verdict on the implementation's answer to `lap`:
 `cost <hex> ; rowsol <n ints> ; colsol <n ints> ; u <n hex> ; v <n hex>` -/
 def lapVerdict (k : Kind) (M : PM) (impl : List String) : String :=
   let d := dimsOf k M
+  if impl == ["hang"] then "FAIL:lap_terminates" else
   if isCrash impl then "FAIL:lap_no_oob" else
   if d.1 != d.2 then (if impl == ["exc:bpp"] then "ok" else "FAIL:lap_nonsquare_raises") else
   if !M.fin then "-" else
@@ -277,9 +301,10 @@ def lapVerdict (k : Kind) (M : PM) (impl : List String) : String :=
         let eps : Rat := if exact then 0 else (cmax + 1) * (n + 1) / ((2 ^ 40 : Nat) : Rat)
         if !(decide (rabs (toRat cost - total) ≤ eps * n)) then "FAIL:lap_cost"
         else if !(if exact then Lap.certB n c σ u v else Lap.certTolB n c σ u v eps) then "FAIL:lap_certificate"
-        else match Lap.bruteMin c n 0 (List.range n) with
-          | some b => if decide (total ≤ b + 2 * n * eps) then "ok" else "FAIL:lap_optimal"
-          | none => "ok"
+        else if !(n > 7 || match Lap.bruteMin c n 0 (List.range n) with
+          | some b => decide (total ≤ b + 2 * n * eps)
+          | none => true) then "FAIL:lap_optimal"
+        else "ok"
     | _, _, _, _, _ => "FAIL:parse"
   | _ => "FAIL:parse"
 
@@ -497,20 +522,19 @@ def stepUnary (st : St) (w : String) (rest : List String) (impl : Option (List S
     pure (out, v)
   | "lap" => do
     let M ← runP (do let M ← pMat; pEnd; pure M) rest
-    -- relational model: any answer satisfying the certificate is accepted (`Lap.lean`)
+    -- the whole routine is transcribed (`LapFull.lean`): the answer of its `Float` instantiation is
+    -- compared bit-for-bit; the verdict evaluates the certificate on the implementation's answer
     let d := dimsOf st.kA M
     let out :=
       if d.1 != d.2 then "exc:bpp" else
-      -- the transcribed part of the routine (no free row after the column reduction) is compared
-      -- bit-for-bit; elsewhere the model is the certificate
-      match Lap.lapEasy d.1 (fun i j => M.at i j) with
-      | some a =>
-        let ix := List.range d.1
-        "cost " ++ showF a.cost ++ " ; rowsol " ++ " ".intercalate (ix.map fun i => toString (a.rowSol i))
-          ++ " ; colsol " ++ " ".intercalate (ix.map fun j => toString (a.colSol j))
-          ++ " ; u " ++ " ".intercalate (ix.map fun i => showF (a.u i))
-          ++ " ; v " ++ " ".intercalate (ix.map fun j => showF (a.v j))
-      | none => "relational"
+      match Lap.lapFull (lapFuel d.1) d.1 (fun i j => M.at i j) (fun _ => -7) (fun _ => -7) (fun _ => 99.0) (fun _ => 99.0) with
+      | .ok a =>
+        -- integer costs below 2^40: the exact (`Rat`) instantiation must give the same answer
+        let cmax := M.a.foldl (fun m x => max m (rabs (toRat x))) 0
+        if M.fin && M.int && decide (cmax < (2 ^ 40 : Nat)) && !lapRatAgrees d.1 M.q a then
+          showLap d.1 a ++ " ; the-Rat-instantiation-differs"
+        else showLap d.1 a
+      | .error e => showErr e
     pure (out, vOfImpl impl (lapVerdict st.kA M))
   | _ => none
 
